@@ -100,7 +100,10 @@ def replay(rec: Dict[str, Any]) -> List[Tuple[str, Dict[str, Any], str]]:
             except BaseException as e:  # noqa: BLE001
                 disc = f"raised-{exc_family(e)}"
             if disc:
-                out.append((f"{disc}|{sel_features(rec['q'])}", {"query": text, "doc": show(tbl.docs[d]["doc"]),
+                feat = sel_features(rec['q'])
+                if disc.startswith("pointer-raised") and any(isinstance(p, str) and p.lstrip("-").isdigit() and abs(int(p)) > 2**53 - 1 for m in ms for p in m.parts):
+                    feat = "member-name-is-an-integer-beyond-the-index-limit"
+                out.append((f"{disc}|{feat}", {"query": text, "doc": show(tbl.docs[d]["doc"]),
                             "matches": [(m.path, list(m.parts)) for m in ms][:8], "tagged": rec}, disc))
                 break
         if out:
